@@ -48,20 +48,33 @@ structure TDefects where
   /-- `visit` has no case for `ConstantNode` (inserted by the optimizer or a Patch visitor): a second
       check of such a tree panics ("undefined node type") -/
   constNodePanic : Bool
+  /-- the retyping of call arguments applies to every `+ - * /` / unary `+ -` expression, also when its
+      operands are not integer literals: `Ff(+U64)`, `Fi(F64 + 1)` are accepted with the parameter's type
+      although the value keeps its own kind (`reflect: Call using uint64 as type float64`) -/
+  retypeNonLiteral : Bool
+  /-- `c ? a : b` with `a`'s type assignable to `b`'s reports `a`'s type (`c ? 1 : Any` : int) although
+      the value may be whatever `b` yields; repaired by 390c455 (reports `b`'s type) -/
+  condFirstBranchType : Bool
+  /-- `combined(a, b)` ranks `interface{}` below every numeric kind (`typeWeight` 0): `Any * 1`, `Any + I`
+      are reported as `int` although the value may be a float64 (or anything numeric); pinned by /repo's
+      own tests (TestVisitor_FunctionNode) -/
+  combinedIgnoresIface : Bool
+  /-- `a[f:t]` on an array `[n]T` is reported with the array's type `[n]T`; slicing yields `[]T` -/
+  arraySliceKeepsArrayType : Bool
   deriving DecidableEq, Repr
 
 /-- the pinned snapshot -/
-def TDefects.asWas : TDefects := ⟨true, true, true, true, true, true, true, true, true, true⟩
+def TDefects.asWas : TDefects := ⟨true, true, true, true, true, true, true, true, true, true, true, true, true, true⟩
 /-- /repo's current HEAD: after the `fix:` commits 76735a9 (located error first), b6f8e35 (`AsBool` on the
 nil type), 6162013 (numeric-only literal retyping), 106fb38 (closure with a nil-typed body), e2e7046 (`in`
 needs a usable key), 265c5fa (no slicing of maps), a03872c (computed map-literal key must be a string),
-911e74d (ConstantNode).  The loose index rule and the static slice types of `filter`/`map` are pinned by
-/repo's own tests and remain. -/
-def TDefects.asIs : TDefects := ⟨false, true, false, false, true, false, false, false, false, false⟩
-def TDefects.repaired : TDefects := ⟨false, false, false, false, false, false, false, false, false, false⟩
+911e74d (ConstantNode), 390c455 (type of a conditional).  The loose index rule and the static slice types of `filter`/`map` are pinned by
+/repo's own tests and remain, as does `combined` on interface operands. -/
+def TDefects.asIs : TDefects := ⟨false, true, false, false, true, false, false, false, false, false, true, false, true, false⟩
+def TDefects.repaired : TDefects := ⟨false, false, false, false, false, false, false, false, false, false, false, false, false, false⟩
 /-- intermediate flag sets used for self-tests against partially patched copies of the repository -/
-def TDefects.safeFix : TDefects := ⟨false, true, false, false, true, false, true, true, true, true⟩
-def TDefects.safeFix2 : TDefects := ⟨false, true, false, false, true, false, false, false, false, true⟩
+def TDefects.safeFix : TDefects := ⟨false, true, false, false, true, false, true, true, true, true, true, true, true, true⟩
+def TDefects.safeFix2 : TDefects := ⟨false, true, false, false, true, false, false, false, false, true, true, true, true, true⟩
 
 inductive Expect where
   | none | bool | int64 | float64
@@ -243,9 +256,20 @@ def paramFor (ins : List Ty) (variadic : Bool) (numIn offset i : Nat) : OTy :=
     | none => none
   else ins[i + offset]?
 
-/-- may an integer literal be retyped to this parameter type?  As written: always. -/
+/-- may an integer literal be retyped to this parameter type?  At the snapshot: always. -/
 def retypeOk (dt : TDefects) (inT : OTy) : Bool :=
   dt.retypeAnyParam || isNumberT inT
+
+/-- an expression built from integer literals only (with `+ - * /` and unary `+ -`) -/
+def intLiteralTree : Node → Bool
+  | .int _ _ => true
+  | .unary _ op x => (op == "+" || op == "-") && intLiteralTree x
+  | .binary _ op l r => (op == "+" || op == "/" || op == "-" || op == "*") && intLiteralTree l && intLiteralTree r
+  | _ => false
+
+/-- is the argument `a` given the parameter's type `inT` ("retyped")? -/
+def retypes (dt : TDefects) (a : Node) (inT : OTy) : Bool :=
+  isIntegerOrArith a && retypeOk dt inT && (dt.retypeNonLiteral || intLiteralTree a)
 
 /-- the `Fast` flag of `FunctionNode` -/
 def fastCall (fn : Ty) (method : Bool) : Bool :=
@@ -318,6 +342,11 @@ def mapKeyFits (l r : OTy) : Bool :=
     else true
   | none => false
 
+/-- the result type of an arithmetic operator: `combined`, except that the documented rule set gives
+`interface{}` when an operand is of interface type -/
+def combinedR (dt : TDefects) (l r : OTy) : OTy :=
+  if !dt.combinedIgnoresIface && (isInterfaceT l || isInterfaceT r) then ifaceTy else combinedT l r
+
 /-- `BinaryNode` (no operator overloading) -/
 def binaryRule (dt : TDefects) (op : String) (l r : OTy) : Rule :=
   let bad : Rule := .error .mismatchBinary
@@ -331,13 +360,13 @@ def binaryRule (dt : TDefects) (op : String) (l r : OTy) : Rule :=
   else if op == "<" || op == ">" || op == ">=" || op == "<=" then
     if (isNumberT l && isNumberT r) || (isStringT l && isStringT r) then .ok boolTy else bad
   else if op == "/" || op == "-" || op == "*" then
-    if isNumberT l && isNumberT r then .ok (combinedT l r) else bad
+    if isNumberT l && isNumberT r then .ok (combinedR dt l r) else bad
   else if op == "**" then
     if isNumberT l && isNumberT r then .ok floatTy else bad
   else if op == "%" then
-    if isIntegerT l && isIntegerT r then .ok (combinedT l r) else bad
+    if isIntegerT l && isIntegerT r then .ok (combinedR dt l r) else bad
   else if op == "+" then
-    if isNumberT l && isNumberT r then .ok (combinedT l r)
+    if isNumberT l && isNumberT r then .ok (combinedR dt l r)
     else if isStringT l && isStringT r then .ok stringTy else bad
   else if op == "contains" || op == "startsWith" || op == "endsWith" then
     if isStringT l && isStringT r then .ok boolTy else bad
@@ -362,6 +391,16 @@ def indexRule (dt : TDefects) (t i : OTy) : Rule :=
 
 def sliceable (dt : TDefects) (t : OTy) : Bool :=
   if dt.sliceOfMap then (indexTypeT t).isSome || isStringT t else isArrayT t || isStringT t
+
+/-- the type of `a[f:t]`: the operand's type; the documented rule set gives `[]T` for an array `[n]T` -/
+def sliceResult (dt : TDefects) (t : OTy) : OTy :=
+  if dt.arraySliceKeepsArrayType then t
+  else match t.deref with
+    | some u => if u.kind == .array then u.elem?.map Ty.slice else t
+    | none => t
+
+/-- /repo HEAD plus the proposed patch /tmp/w/types/c03-fixes-3.patch (array slicing) -/
+def TDefects.safeFix3 : TDefects := { TDefects.asIs with arraySliceKeepsArrayType := false }
 
 /-- the key of a map-literal pair -/
 def pairKeyRule (dt : TDefects) (kt : OTy) : Rule :=
@@ -397,7 +436,7 @@ def funcPlan (fn : Ty) (method : Bool) (nargs : Nat) :
 /-- one argument of a call: the type it is checked with (integer literals take the parameter's type)
 and whether it fits; `none` = nil-typed argument, skipped -/
 def argType (dt : TDefects) (a : Node) (t0 inT : OTy) : OTy :=
-  if isIntegerOrArith a && retypeOk dt inT then inT else t0
+  if retypes dt a inT then inT else t0
 
 def argFits (t inT : OTy) : Bool :=
   match t with
@@ -438,12 +477,13 @@ def pointerRule (colls : List OTy) : Rule :=
     | none => .error .pointerNotArray
 
 /-- `ConditionalNode`: the result type from the branches' types -/
-def condType (t1 t2 : OTy) : OTy :=
+def condType (dt : TDefects) (t1 t2 : OTy) : OTy :=
   match t1, t2 with
   | none, some y => some y
   | some x, none => some x
   | none, none => none
-  | some x, some y => if assignableTo x y then some x else ifaceTy
+  | some x, some y =>
+    if assignableTo x y then (if dt.condFirstBranchType then some x else some y) else ifaceTy
 
 def closureType (bt : Ty) : OTy := some (.func [interfaceType] false [bt])
 
@@ -521,7 +561,7 @@ def visit (cfg : CheckCfg) : Node → CState → Node × OTy × CState
       else
         let (to', toOk, st) := visitBound cfg to st
         if !toOk then (setKd (.slice m x' from' to') ifaceTy, ifaceTy, st)
-        else (setKd (.slice m x' from' to') t, t, st)
+        else (setKd (.slice m x' from' to') (sliceResult cfg.dt t), sliceResult cfg.dt t, st)
     else
       let st := st.fail m.loc .notSliceable
       (setKd (.slice m x' from_ to) ifaceTy, ifaceTy, st)
@@ -605,7 +645,7 @@ def visit (cfg : CheckCfg) : Node → CState → Node × OTy × CState
     else
       let (a', t1, st) := visit cfg a st
       let (b', t2, st) := visit cfg b st
-      (setKd (.cond m c' a' b') (condType t1 t2), condType t1 t2, st)
+      (setKd (.cond m c' a' b') (condType cfg.dt t1 t2), condType cfg.dt t1 t2, st)
   | .array m xs, st =>
     let (xs', st) := visitList cfg xs st
     (setKd (.array m xs') arrayTy, arrayTy, st)
@@ -640,7 +680,7 @@ def checkArgs (cfg : CheckCfg) (ins : List Ty) (variadic : Bool) (numIn offset :
   | i, a :: rest, st =>
     let (a', t0, st) := visit cfg a st
     let inT := paramFor ins variadic numIn offset i
-    let retype := isIntegerOrArith a && retypeOk cfg.dt inT
+    let retype := retypes cfg.dt a inT
     let a'' := if retype then setTypeForIntegers inT.kind a' else a'
     if !argFits (argType cfg.dt a t0 inT) inT then (a'' :: rest, false, st.fail a''.loc .badArgument)
     else
